@@ -333,7 +333,15 @@ def check_extent_len(ctx):
     C05.check_len(ctx, "C03.extent-len")
 
 
+def check_bounds(ctx):
+    """the recovery parser refuses a head block only for the reasons the writer's admission checks know (same comparison pins as
+    C10.bounds): a bound that is off by one at the block boundary turns an acknowledged record into CorruptedRecord at reopen"""
+    from rules import C10
+    C10.check_bounds(ctx, "C03.bounds")
+
+
 def check(ctx):
+    check_bounds(ctx)
     check_extent_len(ctx)
     check_token_agreement(ctx)
     check_journal_validity(ctx)
